@@ -415,10 +415,10 @@ PROPS = {
         "static": [("", "c08.go"), ("layers", "c08b.go")],
         "units": "verif_C08.*",
         "must_reach_all": [],
-        "bounds": "FoldChecksum: all 2^32 accumulator values; ComputeChecksum: all byte strings of length 0..24 and all 2^32 initial sums; emission/verification for UDP and TCP over IPv4 and IPv6, ICMPv4 and the IPv4 header: all addresses, ports, ids, sequence numbers symbolic, payload 0..5 symbolic bytes (odd and even), one flipped bit at a symbolic position in the payload or the checksum field",
+        "bounds": "FoldChecksum: all 2^32 accumulator values; ComputeChecksum: all byte strings of length 0..24 and all 2^32 initial sums; emission/verification for UDP and TCP over IPv4 and IPv6, ICMPv4 and the IPv4 header: ports, ids, sequence numbers and payload (0..5 bytes, odd and even) symbolic, addresses concrete in quick and symbolic in thorough (odd and even), one flipped bit at a symbolic position in the payload or the checksum field",
         "outside": "data longer than the bound; ICMPv6 and GRE emission (covered only by the C06/C07 round trips); flips inside length or offset fields",
-        "quick": {"qtimeout": 5000, "fbtimeout": 120000, "timeout": 900, "units": "verif_C08_(fold|sum|emit_udp4|emit_ip4|flip_udp4)", "maxpaths": 1500, "partial_ok_all": True},
-        "thorough": {"qtimeout": 5000, "fbtimeout": 300000, "timeout": 3000},
+        "quick": {"qtimeout": 20000, "fbtimeout": 120000, "timeout": 1500, "units": "verif_C08_(fold|sum|emit_udp4|emit_ip4|flip_udp4)", "maxpaths": 60, "partial_ok_all": True, "params": "verif_C08_(emit|flip).*:sym=0..0"},
+        "thorough": {"qtimeout": 20000, "fbtimeout": 300000, "timeout": 7000, "maxpaths": 400, "partial_ok_all": True, "params": "verif_C08_(emit|flip).*:sym=1..1"},
     },
     "C14": {
         "pkgs": [MOD + "/pcapgo"],
